@@ -76,10 +76,10 @@ def cases(ctx):
         for ph in grid:
             if mine():
                 yield {"kind": "prep", "theta": th, "phi": ph}
-    for _ in range(ctx.n(30, 3000) * ctx.nshards):
+    for _ in range(ctx.n(30, 10000) * ctx.nshards):
         if mine():
             yield {"kind": "prep", "theta": rng.uniform(-7, 7), "phi": rng.uniform(-7, 7)}
-    for _ in range(ctx.n(40, 3000)):
+    for _ in range(ctx.n(40, 40000)):
         yield {"kind": "session", "hardware": rng.choice(["generic", "generic", "nv"]), "slots": rng.choice([2, 2, 3]),
                "steps": rng.choice([20, 40, 60]), "seed": rng.randrange(2**31)}
     nrand = 2 if ctx.quick else 12
